@@ -111,11 +111,20 @@ func runCB(x *X) {
 		x.mu.Unlock()
 		x.Logf("ev %d t=%v %s req=%d %s", e.seq, e.at, kind, req, out)
 	}
-	cb := circuitbreaker.NewCircuitBreaker(circuitbreaker.Settings{
+	// the subscriber the balancer installs reads the breaker back (Counts, for its metrics);
+	// half of the runs do the same, some yield first like a subscriber that logs
+	subscriberReads := c.Intn(2, "subscriber-reads-breaker") == 1
+	var cb *circuitbreaker.CircuitBreaker
+	cb = circuitbreaker.NewCircuitBreaker(circuitbreaker.Settings{
 		Name: "sim", MaxRequests: uint32(mr), Interval: interval, Timeout: timeout,
 		FailureThreshold: uint32(ft), SuccessThreshold: uint32(st),
 		OnStateChange: func(name string, from, to circuitbreaker.State) {
 			rec("trans", -1, from.String()+">"+to.String())
+			if subscriberReads {
+				simrt.Yield("subscriber")
+				_, _, _ = cb.Counts()
+				_ = cb.State()
+			}
 		},
 	})
 	reqN := 0
